@@ -111,7 +111,7 @@ def extraction_incomplete():
     p = os.path.join(LEAN, "Knx", "Gen", "Status.lean")
     if not os.path.exists(p):
         return []
-    return re.findall(r'^\s+"((?:[^"\\]|\\.)*)",?$', open(p, encoding="utf-8").read(), re.M)
+    return re.findall(r'^\s+"((?:[^"\\]|\\.)*)"[,\]]?$', open(p, encoding="utf-8").read(), re.M)
 
 
 def only_followability(items):
